@@ -420,30 +420,46 @@ func keyExchange(klen int, ida, idb []byte, pri *PrivateKey, pub *PublicKey, rpr
 	if err != nil {
 		return
 	}
-	zero := new(big.Int)
-	if vx.Cmp(zero) == 0 || vy.Cmp(zero) == 0 {
+	if vx.Sign() == 0 && vy.Sign() == 0 {
 		err = errors.New("V is infinite")
+		return
 	}
 	pzb := pub
 	if !thisISA {
 		pzb = &pri.PublicKey
 	}
 	zb, err := ZA(pzb, idb)
-	k, ok := kdf(klen, vx.Bytes(), vy.Bytes(), za, zb)
+	if err != nil {
+		return
+	}
+	// all coordinates enter KDF and the hashes as 32-byte strings
+	vxBuf, vyBuf := keCoordBytes(vx), keCoordBytes(vy)
+	k, ok := kdf(klen, vxBuf, vyBuf, za, zb)
 	if !ok {
 		err = errors.New("kdf: zero key")
 		return
 	}
-	h1 := BytesCombine(vx.Bytes(), za, zb, rpub.X.Bytes(), rpub.Y.Bytes(), rpri.X.Bytes(), rpri.Y.Bytes())
+	// Hash(xV || ZA || ZB || x1 || y1 || x2 || y2): (x1,y1) = RA is the ephemeral
+	// point of the initiator A, (x2,y2) = RB the one of the responder B
+	h1 := BytesCombine(vxBuf, za, zb, keCoordBytes(rpri.X), keCoordBytes(rpri.Y), keCoordBytes(rpub.X), keCoordBytes(rpub.Y))
 	if !thisISA {
-		h1 = BytesCombine(vx.Bytes(), za, zb, rpri.X.Bytes(), rpri.Y.Bytes(), rpub.X.Bytes(), rpub.Y.Bytes())
+		h1 = BytesCombine(vxBuf, za, zb, keCoordBytes(rpub.X), keCoordBytes(rpub.Y), keCoordBytes(rpri.X), keCoordBytes(rpri.Y))
 	}
 	hash := sm3.Sm3Sum(h1)
-	h2 := BytesCombine([]byte{0x02}, vy.Bytes(), hash)
+	h2 := BytesCombine([]byte{0x02}, vyBuf, hash)
 	S1 := sm3.Sm3Sum(h2)
-	h3 := BytesCombine([]byte{0x03}, vy.Bytes(), hash)
+	h3 := BytesCombine([]byte{0x03}, vyBuf, hash)
 	S2 := sm3.Sm3Sum(h3)
 	return k, S1, S2, nil
+}
+
+// keCoordBytes returns the 32-byte big-endian encoding of a curve coordinate.
+func keCoordBytes(x *big.Int) []byte {
+	buf := x.Bytes()
+	if n := len(buf); n < 32 {
+		buf = append(zeroByteSlice()[:32-n], buf...)
+	}
+	return buf
 }
 
 func msgHash(za, msg []byte) (*big.Int, error) {
